@@ -7,7 +7,7 @@ VARIABLES h, g, n, faults, last, hist
 vars == <<h, g, n, faults, last, hist>>
 
 FaultLists == {<<>>, <<TRUE>>, <<FALSE, TRUE>>, <<FALSE, FALSE, TRUE>>}
-Ops == [op : {"start", "stop", "abort"}, k : {"-"}, v : {0}, fl : FaultLists]
+Ops == [op : {"start", "stop", "close", "abort"}, k : {"-"}, v : {0}, fl : FaultLists]
        \cup [op : {"put"}, k : Keys, v : Vals, fl : FaultLists] \cup [op : {"get"}, k : Keys, v : {0}, fl : FaultLists]
 NF(fl) == Cardinality({i \in DOMAIN fl : fl[i]})
 OpenTx(s) == Cardinality({i \in DOMAIN s.txs : ~s.txs[i].done})
